@@ -24,6 +24,7 @@ aggregating, and RST writing.
 from typing import List
 
 from antlr4 import *
+from antlr4.error.ErrorStrategy import BailErrorStrategy
 
 from .aggregator import DocumentationAggregator
 from cminx import Settings
@@ -97,6 +98,11 @@ class Documenter(object):
         """
 
         self.parser.addErrorListener(ParserErrorListener())
+
+        # Never resynchronise after a syntax error: an exception raised by the listener
+        # inside a nested rule is otherwise caught by the enclosing rule, which silently
+        # recovers by skipping tokens
+        self.parser._errHandler = BailErrorStrategy()
 
         # Hard part is done, we now have a fully usable parse tree, now we just
         # need to walk it
